@@ -67,6 +67,11 @@ impl ManifestPackCreator {
         }
 
         let value_store_pos = self.value_store.write().unwrap().write(file)?;
+        // What is stored in the pack is relative to the start of the pack.
+        let value_store_pos = SizedOffset::new(
+            value_store_pos.size,
+            (value_store_pos.offset.into_u64() - origin_offset).into(),
+        );
 
         let packs_offset = file.stream_position()? - origin_offset;
         // Write the pack_info
